@@ -28,6 +28,10 @@ func main() {
 		cmdParams(args)
 	case "lists":
 		cmdLists(args)
+	case "twin":
+		cmdTwin(args)
+	case "replay":
+		cmdReplay(args)
 	case "denom":
 		cmdDenom(args)
 	default:
